@@ -168,7 +168,8 @@ def gen_script(ctx, W, t, n, plan_hint, plan_det=True):
             ops.append({"kind": "trajectory", "plan": plan_hint[: 1 + t.draw(3)], "allow": t.chance(1, 2),
                         "det": plan_det})
         elif k == 14:
-            ops.append({"kind": ["parse_typed", "parse_untyped", "locate", "new_domain"][t.draw(4)]})
+            ops.append({"kind": ["parse_typed", "parse_untyped", "locate", "new_domain", "str_domain", "str_problem",
+                                 "shallow_copy", "state_objects"][t.draw(8)]})
         else:
             c = G.gen_call(t, W.D, W.P)
             if c:
@@ -382,6 +383,32 @@ def exec_op(env, ops, i, store):
         try:
             dd = MultiAgentDomainsConverter(env.locate_dir).locate_domains()
             return ("digest", c17.digest_domain(dd))
+        except schedmod.SimCancel:
+            raise
+        except Exception as e:
+            return ("exc", type(e).__name__)
+    if k in ("str_domain", "str_problem"):
+        try:
+            txt = str(d) if k == "str_domain" else str(p)
+            return ("words", tuple(sorted(txt.replace("[", " ").replace("]", " ").replace(",", " ").split())))
+        except schedmod.SimCancel:
+            raise
+        except Exception as e:
+            return ("exc", type(e).__name__)
+    if k == "shallow_copy":
+        try:
+            c = d.shallow_copy()
+            return ("shallow", c.name, tuple(sorted(c.types)), tuple(sorted(c.constants)), tuple(sorted(c.predicates)),
+                    tuple(sorted(c.functions)), tuple((a, tuple((n, ty.name) for n, ty in act.signature.items()))
+                                                       for a, act in sorted(c.actions.items())))
+        except schedmod.SimCancel:
+            raise
+        except Exception as e:
+            return ("exc", type(e).__name__)
+    if k == "state_objects":
+        try:
+            objs = env.s0.get_state_objects()
+            return ("objects", tuple(sorted(objs)))
         except schedmod.SimCancel:
             raise
         except Exception as e:
